@@ -10,15 +10,16 @@
    Established) is not required to be up to date until it is resumed / released. *)
 EXTENDS Speaker, SpeakerDom, TraceUtil
 
-VARIABLES l, stalled, held, obs, hasObs
-tvars == <<up, inr, loc, impPol, expPol, inrPol, expEff, l, stalled, held, obs, hasObs>>
+VARIABLES l, stalled, held, obs, hasObs, pobs
+tvars == <<up, inr, loc, impPol, expPol, inrPol, expEff, l, stalled, held, obs, hasObs, pobs>>
 
-TraceInit == PInit /\ l = 1 /\ stalled = {} /\ held = {} /\ obs = [none |-> TRUE] /\ hasObs = FALSE
+TraceInit == PInit /\ l = 1 /\ stalled = {} /\ held = {} /\ obs = [none |-> TRUE] /\ hasObs = FALSE /\ pobs = [none |-> TRUE]
 
 IsEvent(e) == l <= TLen /\ Trace[l].ev = e /\ l' = l + 1
 Row == Trace[l]
-TakeObs == IF "obs" \in DOMAIN Row THEN obs' = Row.obs /\ hasObs' = TRUE
-           ELSE obs' = obs /\ hasObs' = FALSE     \* free-running mode: only the final state is observed
+TakeObs == /\ pobs' = obs
+           /\ IF "obs" \in DOMAIN Row THEN obs' = Row.obs /\ hasObs' = TRUE
+              ELSE obs' = obs /\ hasObs' = FALSE     \* free-running mode: only the final state is observed
 
 TReset == /\ IsEvent("Reset")
           /\ up' = [p \in Peers |-> FALSE]
@@ -27,7 +28,7 @@ TReset == /\ IsEvent("Reset")
           /\ impPol' = "acc" /\ expPol' = "acc"
           /\ inrPol' = [p \in Peers |-> [x \in Prefixes |-> "acc"]]
           /\ expEff' = [p \in Peers |-> "acc"]
-          /\ stalled' = {} /\ held' = {} /\ obs' = [none |-> TRUE] /\ hasObs' = FALSE
+          /\ stalled' = {} /\ held' = {} /\ obs' = [none |-> TRUE] /\ hasObs' = FALSE /\ pobs' = [none |-> TRUE]
 
 TUp      == IsEvent("Up") /\ PUp(Row.p) /\ TakeObs /\ UNCHANGED <<stalled, held>>
 TUpHold  == IsEvent("UpHold") /\ PUp(Row.p) /\ held' = held \cup {Row.p} /\ TakeObs /\ UNCHANGED stalled
@@ -63,8 +64,31 @@ Gap_Sessions == hasObs => \A p \in Peers \ held : (obs.sess[p] = "up") = up[p]
 
 (* C01: every established, reading neighbour holds exactly the current export *)
 C01_ExportExact ==
-  hasObs => \A p \in Peers : (Current(p) /\ CleanIn /\ CleanOut(p)) =>
+  hasObs => \A p \in Peers : (Current(p) /\ CleanIn /\ CleanOut(p) /\ SendMax(p) = 0) =>
                \A x \in Prefixes : obs.views[p][x] = ExportOf(p, x)
+
+(* ADD-PATH neighbours: what they hold per prefix is a set of entries [id, ...exported route].
+   Every entry is an eligible route, no route and no identifier twice, and the quota is used:
+   min(send-max, number of eligible routes) entries. *)
+Strip(o) == [v |-> o.v, src |-> o.src, aspath |-> o.aspath, nh |-> o.nh, med |-> o.med, lp |-> o.lp,
+             origid |-> o.origid, clist |-> o.clist]
+MinOf(a, b) == IF a < b THEN a ELSE b
+C01_AddPathExact ==
+  hasObs => \A p \in Peers : (Current(p) /\ CleanIn /\ CleanOut(p) /\ SendMax(p) > 0) =>
+     \A x \in Prefixes :
+        LET O == obs.mviews[p][x]
+            E == EligibleSet(p, x)
+        IN /\ \A i \in 1..Len(O) : Strip(O[i]) \in E
+           /\ \A i, j \in 1..Len(O) : i # j => (O[i].id # O[j].id /\ O[i].src # O[j].src)
+           /\ Len(O) = MinOf(SendMax(p), Cardinality(E))
+(* each advertised route keeps ONE identifier for as long as the session lasts *)
+C01_StableIds ==
+  (hasObs /\ "mviews" \in DOMAIN pobs /\ l > 1) =>
+    \A p \in Peers : (SendMax(p) > 0 /\ up[p]
+                      /\ ~(Trace[l - 1].ev \in {"Up", "UpHold", "Down"} /\ Trace[l - 1].p = p)) =>
+       \A x \in Prefixes : \A i \in 1..Len(obs.mviews[p][x]) : \A j \in 1..Len(pobs.mviews[p][x]) :
+          obs.mviews[p][x][i].src = pobs.mviews[p][x][j].src
+             => obs.mviews[p][x][i].id = pobs.mviews[p][x][j].id
 
 (* C15: once the soft reset matching a policy change has been done, the Loc-RIB and what every
    neighbour holds equal a fresh evaluation under the CURRENT policy (ExportOf / LocRibExpected
